@@ -38,6 +38,21 @@ def run(cmd, timeout=None, cwd=None, env=None, stdin=None):
         return -9, (e.stdout or b'').decode('utf8', 'replace'), 'TIMEOUT', time.time() - t0
 
 
+ATOMIC_RX = re.compile(r'^\s+(%\S+ = )?(load atomic|store atomic|cmpxchg|atomicrmw)\b')
+
+
+def instrument_atomics(src, dst):
+    """LLVM IR text -> the same IR with 'call void @vf_atomic_point()' in front of every atomic instruction (native side of vf_ainject_arm)."""
+    out = []
+    for line in open(src):
+        if ATOMIC_RX.match(line):
+            out.append('  call void @vf_atomic_point()\n')
+        out.append(line)
+    out.append('\ndeclare void @vf_atomic_point()\n')
+    with open(dst, 'w') as f:
+        f.write(''.join(out))
+
+
 def demangle(names):
     if not names:
         return {}
@@ -83,6 +98,7 @@ class TU:
         self.entries = list(em.entries)
         self.unmodelled = list(em.unmodelled)
         self.uses_threads = ir2c.THREAD_START in mod.funcs      # cooperative thread model (C11): native builds link rt/native_threads.cpp
+        self.uses_ainject = 'vf_ainject_arm' in mod.funcs       # atomic-window injection: the native reference is built from the instrumented IR
         defined = [f.name for f in mod.funcs.values() if not f.is_decl]
         dm = demangle(defined)
         self.functions = sorted(set(dm[n] for n in defined))
@@ -118,6 +134,28 @@ class TU:
         if rc != 0:
             raise BuildError('gcc native_rt failed:\n' + err)
         srcs = [self.cpp, main_cpp, rtc]
+        if getattr(self, 'uses_ainject', False):
+            # same front end and IR as the encoding, with a call to vf_atomic_point() in front of every atomic instruction
+            ll = self.ll
+            if sanitize:
+                ll = os.path.join(self.work, self.base + '_san.ll')
+                rc, out, err, dt = run([CLANG] + CLANG_FLAGS + ['-g', '-fsanitize=address,undefined', '-fno-sanitize=function', '-fno-omit-frame-pointer', '-fno-sanitize-recover=undefined'] +
+                                       ['-D' + d for d in self.defines] + [self.cpp, '-o', ll])
+                if rc != 0:
+                    raise BuildError('clang (sanitized IR) failed on %s:\n%s' % (self.cpp, err[-4000:]))
+            inst = os.path.join(self.work, self.base + ('_san' if sanitize else '') + '_inst.ll')
+            instrument_atomics(ll, inst)
+            obj = inst[:-3] + '.o'       # the sanitizer passes already ran when the IR was produced: compile it as it is, link the runtime
+            rc, out, err, dt0 = run([CLANG, '-O1', '-g', '-Wno-override-module', '-c', inst, '-o', obj])
+            if rc != 0:
+                raise BuildError('clang failed on instrumented IR:\n' + err[-4000:])
+            srcs = [obj, main_cpp, rtc]
+            rc, out, err, dt = run([CLANG, '-O1', '-g', '-pthread'] + (['-fsanitize=address,undefined'] if sanitize else []) + srcs +
+                                   [os.path.join(VERIF, 'rt', 'native_new.cpp'), '-o', exe])
+            if rc != 0:
+                raise BuildError('clang native build from instrumented IR failed:\n' + err[-4000:])
+            self.timing['native%s_s' % ('_san' if sanitize else '')] = round(dt, 2)
+            return exe
         if not sanitize:
             srcs.append(os.path.join(VERIF, 'rt', 'native_new.cpp'))
         else:
